@@ -30,6 +30,16 @@ import (
 
 const verifDir = "/verif"
 
+// outDir receives evidence/ and replays/; VERIF_OUT redirects it (used when a
+// check is run against a scratch copy of the repository, e.g. by sensitivity.sh,
+// so that the committed evidence is only ever written by runs against /repo).
+func outDir() string {
+	if d := os.Getenv("VERIF_OUT"); d != "" {
+		return d
+	}
+	return verifDir
+}
+
 type batch struct {
 	Driver string
 	Build  string // plain | race
@@ -54,7 +64,8 @@ var plans = map[string][]batch{
 	"C16": {{Driver: "C16", Build: "plain", Quick: 20000, Thor: 1000000},
 		{Driver: "C16", Build: "plain", Quick: 10000, Thor: 500000, Env: []string{"JSONSCHEMAGODEBUG=typeschemasnull=1"}}},
 	"C13": {{Driver: "C13", Build: "plain", Quick: 8000, Thor: 400000}, {Driver: "C13", Build: "race", Quick: 1600, Thor: 60000}},
-	"C14": {{Driver: "C14", Build: "plain", Quick: 6000, Thor: 240000}},
+	"C14": {{Driver: "C14", Build: "plain", Quick: 6000, Thor: 240000}, {Driver: "C19", Build: "plain", Quick: 3000, Thor: 100000},
+		{Driver: "C15", Build: "plain", Quick: 1500, Thor: 50000}},
 	"C19": {{Driver: "C19", Build: "plain", Quick: 8000, Thor: 400000}},
 }
 
@@ -661,8 +672,8 @@ func doCheck(prop, tier string, seed uint64, bs []batch, scale float64) int {
 	sort.Strings(keys)
 	violations := 0
 	var lines []string
-	os.MkdirAll(filepath.Join(verifDir, "replays"), 0o755)
-	if old, _ := filepath.Glob(filepath.Join(verifDir, "replays", prop+"-*.json")); len(old) > 0 {
+	os.MkdirAll(filepath.Join(outDir(), "replays"), 0o755)
+	if old, _ := filepath.Glob(filepath.Join(outDir(), "replays", prop+"-*.json")); len(old) > 0 {
 		for _, o := range old {
 			os.Remove(o)
 		}
@@ -686,7 +697,7 @@ func doCheck(prop, tier string, seed uint64, bs []batch, scale float64) int {
 			lines = append(lines, fmt.Sprintf("VIOLATION property=%s replay=(not minimised: more than 6 distinct failure classes) oracle=%s site=%q", prop, f.Oracle, f.Site))
 			continue
 		}
-		path := filepath.Join(verifDir, "replays", fmt.Sprintf("%s-%d-%d-%d.json", prop, seed, f.Index, ki))
+		path := filepath.Join(outDir(), "replays", fmt.Sprintf("%s-%d-%d-%d.json", prop, seed, f.Index, ki))
 		note := ""
 		if len(f.Trace) > 0 {
 			os.WriteFile(path, f.Trace, 0o644)
@@ -787,9 +798,9 @@ func doCheck(prop, tier string, seed uint64, bs []batch, scale float64) int {
 		},
 		"assumptions": assumptionsOf(prop),
 	}
-	os.MkdirAll(filepath.Join(verifDir, "evidence"), 0o755)
+	os.MkdirAll(filepath.Join(outDir(), "evidence"), 0o755)
 	eb, _ := json.MarshalIndent(ev, "", " ")
-	if err := os.WriteFile(filepath.Join(verifDir, "evidence", prop+".json"), eb, 0o644); err != nil {
+	if err := os.WriteFile(filepath.Join(outDir(), "evidence", prop+".json"), eb, 0o644); err != nil {
 		die(2, "writing evidence: %v", err)
 	}
 	fmt.Printf("check %s tier=%s seed=%d: %d simulated runs (%d distinct non-trivial), %d steps, %d loader/cache/hash faults fired, determinism sample %d, %.1fs (build %.1fs)\n",
